@@ -25,7 +25,7 @@ from . import fld
 
 MAXNUM, MAXDEN = 2_000_000, 64
 GEO = ("translate", "scale", "rotate90")
-INPLACE_STATE = ("setvalid", "mutatevalid", "updateconst", "setarray", "fromfield", "setsub")
+INPLACE_STATE = ("setvalid", "mutatevalid", "updateconst", "setarray", "fromfield", "setsub", "writearray")
 PERSIST = {"h5": "h5", "ovf": "ovf", "vtk": "vtk"}
 
 
@@ -366,6 +366,10 @@ class World:
         if op == "setarray":
             f.array = self._pat(f.mesh, f.nvdim, int(a["p"]))
             return f
+        if op == "writearray":
+            idx = self._flat_idx(f.mesh.n, a["cell"] - 1)
+            f.array[idx] = [int(a["v"]) + i for i in range(f.nvdim)]
+            return f
         pmin, cell = f.mesh.region.pmin, f.mesh.cell
         centre = lambda d, j: float(pmin[d] + (j + 0.5) * cell[d])
         if op == "selplane":
@@ -464,7 +468,7 @@ class World:
                 mp = [str(vm[c]) for c in lab] if lab and all(c in vm for c in lab) and len(vm) == len(lab) else []
                 if vm and not mp:
                     anomalies.append((o, f"partial component-to-axis mapping {vm} for labels {lab}"))
-                vo = o
+                vo = ao = o
                 for g in fields:
                     if g == o:
                         break
@@ -472,10 +476,17 @@ class World:
                     if gv is real.valid or np.shares_memory(gv, valid):
                         vo = g
                         break
+                for g in fields:
+                    if g == o:
+                        break
+                    ga = self.obj[g].array
+                    if ga is real.array or np.shares_memory(ga, arr):
+                        ao = g
+                        break
                 heap[o] = {"k": "field", "mesh": self.oid.get(id(real.mesh), 0), "nv": nv,
                            "arr": r.astype(np.int64).tolist() if vx else [[0] * nv for _ in range(flat.shape[0])],
                            "valid": fld.flatten_mask(valid.astype(bool)).tolist(), "shape": shape, "lab": lab, "map": mp,
-                           "vx": vx, "mx": True, "vo": vo}
+                           "vx": vx, "mx": True, "vo": vo, "ao": ao}
         roots = {x: self.oid[id(v)] for x, v in self.vars.items()}
         return heap, roots, anomalies
 
@@ -526,6 +537,8 @@ def diff_heaps(want, wroots, got, groots):
                 out.append(("sharing", o, f"field {o} refers to mesh {g['mesh']} instead of {w['mesh']}"))
             if w["vo"] != g["vo"]:
                 out.append(("ownvalid", o, f"field {o}: its validity array is the one of field {g['vo']}"))
+            if w.get("ao", o) != g.get("ao", o):
+                out.append(("ownarray", o, f"field {o}: its value array shares memory with the one of field {g.get('ao')}"))
             if w["nv"] != g["nv"] or w["shape"] != g["shape"]:
                 out.append(("shape", o, f"field {o}: nvdim/shape {g['nv']}/{g['shape']} instead of {w['nv']}/{w['shape']}"))
                 continue
